@@ -520,6 +520,129 @@ Proof.
   - apply read_exact_std_refines; assumption.
 Qed.
 
+(* ---- read to the end -------------------------------------------------------------------- *)
+
+Lemma win_at_le : forall cs i, win_at cs i <= len (concat cs) - i.
+Proof.
+  induction cs as [|c r IH]; intros i; cbn [win_at concat].
+  - lia.
+  - rewrite len_app. destruct (N.ltb_spec i (len c)); [lia|]. specialize (IH (i - len c)). lia.
+Qed.
+
+Lemma win_at_zero : forall cs i, win_at cs i = 0 -> len (concat cs) <= i.
+Proof.
+  induction cs as [|c r IH]; intros i H; cbn [win_at concat] in *.
+  - rewrite len_nil. lia.
+  - rewrite len_app. destruct (N.ltb_spec i (len c)); [lia|]. specialize (IH _ H). lia.
+Qed.
+
+Lemma skipn_add : forall (A : Type) (a b : nat) (l : list A), skipn a (skipn b l) = skipn (a + b) l.
+Proof.
+  intros A a b. induction b as [|b IH]; intros l.
+  - rewrite skipn_O. f_equal. lia.
+  - destruct l as [|x l]; [rewrite !skipn_nil; reflexivity|].
+    replace (a + S b)%nat with (S (a + b)) by lia. rewrite !skipn_cons. apply IH.
+Qed.
+
+Lemma slice_skipn : forall D i k,
+  slice D i k ++ skipn (N.to_nat (i + k)) D = skipn (N.to_nat i) D.
+Proof.
+  intros. unfold slice.
+  replace (N.to_nat (i + k)) with (N.to_nat k + N.to_nat i)%nat by lia.
+  rewrite <- skipn_add. apply firstn_skipn.
+Qed.
+
+(* the loop of read_all on the flat reference (an auxiliary: the reference itself is the closed
+   form f_read_all) *)
+Fixpoint f_read_all_loop (cs : list (list N)) (fuel : nat) (s : fstate) (n : N) (acc : list N)
+  : fstate * res (list N) :=
+  match fuel with
+  | O => (s, OutOfFuel)
+  | S k =>
+      match f_read cs s n with
+      | (s', Ok bs) =>
+          if len bs =? 0 then (s', Ok acc) else f_read_all_loop cs k s' n (acc ++ bs)
+      | (s', e) => (s', e)
+      end
+  end.
+
+Lemma all_loop_refines : forall fx f n, wf f -> exact_ok fx f n -> forall fuel st s acc,
+  Inv f st s ->
+  snd (read_all_loop fx fuel st n acc) = snd (f_read_all_loop (chunks f) fuel s n acc) /\
+  Inv f (fst (read_all_loop fx fuel st n acc)) (fst (f_read_all_loop (chunks f) fuel s n acc)).
+Proof.
+  intros fx f n Hwf Hok. induction fuel as [|k IH]; intros st s acc HI.
+  - cbn [read_all_loop f_read_all_loop fst snd]. split; [reflexivity | exact HI].
+  - cbn [read_all_loop f_read_all_loop].
+    destruct (read_refines fx f st s n Hwf HI (not_stale _ _ _ _ _ HI Hok)) as [Hr HI1].
+    destruct (read fx st n) as [st1 r1]. cbn [fst snd] in Hr, HI1.
+    unfold f_read in *. cbn [fst snd] in *. subst r1.
+    set (bs := slice (concat (chunks f)) (off (refill (chunks f) s)) (N.min n (win (refill (chunks f) s)))) in *.
+    destruct (len bs =? 0); [cbn [fst snd]; split; [reflexivity | exact HI1]|].
+    apply IH. exact HI1.
+Qed.
+
+Lemma refill_bound : forall cs s, off s + win s <= len (concat cs) ->
+  off (refill cs s) + win (refill cs s) <= len (concat cs).
+Proof.
+  intros cs s H. unfold refill. destruct (0 <? win s); [exact H|]. cbn [off win].
+  pose proof (win_at_le cs (off s)). lia.
+Qed.
+
+Lemma f_all_loop_closed : forall cs n, 0 < n -> forall fuel s acc,
+  off s + win s <= len (concat cs) ->
+  (N.to_nat (len (concat cs) - off s) < fuel)%nat ->
+  f_read_all_loop cs fuel s n acc
+  = (mkF (len (concat cs)) 0, Ok (acc ++ skipn (N.to_nat (off s)) (concat cs))).
+Proof.
+  intros cs n Hn. induction fuel as [|k IH]; intros s acc Hb Hf; [lia|].
+  cbn [f_read_all_loop]. unfold f_read.
+  pose proof (refill_bound cs s Hb) as Hb1.
+  assert (Ho1 : off (refill cs s) = off s).
+  { unfold refill. destruct (0 <? win s); reflexivity. }
+  set (s1 := refill cs s) in *.
+  rewrite len_slice by lia.
+  destruct (N.eqb_spec (N.min n (win s1)) 0) as [Ez|Enz].
+  - assert (Hw1 : win s1 = 0) by lia.
+    assert (Hend : off s = len (concat cs)).
+    { subst s1. unfold refill in Hw1. destruct (N.ltb_spec 0 (win s)) as [Hp|Hz]; [lia|].
+      cbn [win] in Hw1. apply win_at_zero in Hw1. lia. }
+    rewrite Ez. unfold f_advance. rewrite Ho1, Hw1, Hend.
+    replace (len (concat cs) + 0) with (len (concat cs)) by lia. replace (0 - 0) with 0 by lia.
+    f_equal. f_equal. unfold len. rewrite Nat2N.id, skipn_all, app_nil_r. reflexivity.
+  - rewrite IH.
+    + unfold f_advance. cbn [off]. f_equal. f_equal. rewrite <- app_assoc. f_equal.
+      rewrite Ho1. apply slice_skipn.
+    + unfold f_advance. cbn [off win]. lia.
+    + unfold f_advance. cbn [off]. lia.
+Qed.
+
+Lemma data_ahead_spec : forall st, N.of_nat (data_ahead st) = blen st + total_dlen (rest st).
+Proof.
+  intros st. unfold data_ahead. pose proof (len_concat_chunks (rest st)) as H.
+  unfold len, chunks in H. lia.
+Qed.
+
+Lemma read_all_refines : forall fx f st s n, wf f -> Inv f st s -> exact_ok fx f n ->
+  snd (read_all fx st n) = snd (f_read_all (chunks f) s n) /\
+  Inv f (fst (read_all fx st n)) (fst (f_read_all (chunks f) s n)).
+Proof.
+  intros fx f st s n Hwf HI Hok. unfold read_all.
+  pose proof (all_loop_refines fx f n Hwf Hok (S (data_ahead st)) st s [] HI) as Href.
+  unfold f_read_all. destruct (N.eqb_spec n 0) as [Ez|Enz].
+  - subst n. cbn [f_read_all_loop] in Href. unfold f_read in *. cbn [fst snd] in *.
+    replace (N.min 0 (win (refill (chunks f) s))) with 0 in * by lia.
+    rewrite slice_zero in Href. cbn [len length N.of_nat] in Href. rewrite N.eqb_refl in Href.
+    cbn [fst snd] in Href. exact Href.
+  - pose proof (Inv_bound _ _ _ HI) as Hbd. rewrite <- len_concat_chunks in Hbd.
+    rewrite f_all_loop_closed in Href; [| lia | exact Hbd |].
+    + cbn [fst snd app] in Href. replace (N.max (off s) (len (concat (chunks f)))) with (len (concat (chunks f))) by lia.
+      exact Href.
+    + pose proof (data_ahead_spec st) as Hda.
+      destruct HI as (pre & Hf & _ & Hcur & _ & Hwin & Hoff & _).
+      rewrite len_concat_chunks. rewrite Hf at 1. rewrite dsum_app. lia.
+Qed.
+
 (* ---- seek ------------------------------------------------------------------------------ *)
 
 (* fx = false only (the pinned reader's class seek-eof-stale-block): a seek to the end-of-file
@@ -747,6 +870,7 @@ Definition op_ok (fx : bool) (f : file) (st : state) (o : op) : Prop :=
   | FillBuf | Consume _ => True
   | Seek v => (exists j, denote f v = Some j) /\ seek_ok fx f st v
   | SeekU p => seeku_ok f p
+  | ReadAll n => exact_ok fx f n
   end.
 
 Lemma step_refines : forall fx f st s o, wf f -> total_csize f <= MAX_COMPRESSED_POSITION ->
@@ -754,7 +878,7 @@ Lemma step_refines : forall fx f st s o, wf f -> total_csize f <= MAX_COMPRESSED
   exists s' fo, fstep f s o = Some (s', fo) /\
     out_eq (snd (step fx f (gzi_of f) st o)) fo /\ Inv f (fst (step fx f (gzi_of f) st o)) s'.
 Proof.
-  intros fx f st s o Hwf Hmax HI Hok. destruct o as [n|n|n| |n|v|p]; cbn [op_ok] in Hok; cbn [step fstep].
+  intros fx f st s o Hwf Hmax HI Hok. destruct o as [n|n|n| |n|v|p|n]; cbn [op_ok] in Hok; cbn [step fstep].
   - destruct (read_refines fx f st s n Hwf HI Hok) as [Hr HI'].
     destruct (read fx st n) as [st' r]. destruct (f_read (chunks f) s n) as [s' fr]. cbn [fst snd] in *.
     exists s', (FBytes fr). splits; fin.
@@ -778,6 +902,9 @@ Proof.
     destruct (seek_by_uncompressed_position fx f (gzi_of f) st p) as [st' r]. cbn [fst snd] in *.
     destruct Hok as [Hp _]. destruct (N.leb_spec p (total_dlen f)); [|lia].
     exists (f_seek_flat (chunks f) p), (FPos (Ok p)). splits; fin.
+  - destruct (read_all_refines fx f st s n Hwf HI Hok) as [Hr HI'].
+    destruct (read_all fx st n) as [st' r]. destruct (f_read_all (chunks f) s n) as [s' fr]. cbn [fst snd] in *.
+    exists s', (FBytes fr). splits; fin.
 Qed.
 
 (* the flat reference run: per op its result and the flat offset afterwards *)
@@ -869,7 +996,7 @@ Definition is_seek (o : op) : bool :=
 
 Lemma fstep_mono : forall f s o s' x, is_seek o = false -> fstep f s o = Some (s', x) -> off s <= off s'.
 Proof.
-  intros f s o s' x Hns H. destruct o as [n|n|n| |n|v|p]; try discriminate; cbn [fstep] in H.
+  intros f s o s' x Hns H. destruct o as [n|n|n| |n|v|p|n]; try discriminate; cbn [fstep] in H.
   - destruct (f_read_shape (chunks f) s n) as (k & _ & _ & Ho).
     destruct (f_read (chunks f) s n) as [s1 r1]. inversion H; subst. cbn [fst] in Ho. lia.
   - unfold f_read_exact in H. destruct (n <=? win s).
@@ -882,6 +1009,9 @@ Proof.
     destruct (f_read_loop (chunks f) (S (N.to_nat n)) s n []) as [s1 r1]. inversion H; subst. exact Hm.
   - unfold f_fill in H. inversion H; subst. rewrite refill_off. lia.
   - inversion H; subst. unfold f_consume, f_advance. cbn [off]. lia.
+  - unfold f_read_all in H. destruct (n =? 0).
+    + injection H as Hs' _. rewrite <- Hs'. unfold f_advance. cbn [off]. rewrite refill_off. lia.
+    + injection H as Hs' _. rewrite <- Hs'. cbn [off]. lia.
 Qed.
 
 Fixpoint nondecr (start : N) (l : list N) : Prop :=
@@ -912,12 +1042,13 @@ Lemma ops_valid_ok : forall f ops st, ops_valid f ops -> ops_ok true f (gzi_of f
 Proof.
   intros f. induction ops as [|o r IH]; intros st Hv; [exact I|].
   inversion Hv as [|? ? Ho Hr]; subst. cbn [ops_ok]. split; [|apply IH; exact Hr].
-  destruct o as [n|n|n| |n|v|p]; cbn [op_ok]; try exact I.
+  destruct o as [n|n|n| |n|v|p|n]; cbn [op_ok]; try exact I.
   - intros (H & _). discriminate.
   - left. reflexivity.
   - left. reflexivity.
   - split; [exact Ho|]. intros H. discriminate.
   - exact Ho.
+  - left. reflexivity.
 Qed.
 
 Theorem reader_refines_flat_repaired : forall f ops,
